@@ -56,6 +56,13 @@ def inputs(ck):
             for cc in (c, c + c):
                 edge += [cc + b, b + cc, b[:sp] + cc + b[sp:], cc + b + cc]
     streams["special_edges"] = edge
+    # letter-like words outside ASCII glued to every place where the lexer looks ahead over a word before deciding what the token is
+    # (behind a paste `#`, a directive, a number prefix, `!`, `$`, a dot, an identifier), with identifiers and keywords later in the text
+    ahead = ["#", "a#", "\"s\"#", "!", "0x", "0b", "1", "+", "-", "$", ".", "..", "a", "#ifdef ", "#define ", "#", "//", "[{", "\"", "<"]
+    words = ["\u00e9", "\u65e5\u672c", "\u03b1", "\u00f1x", "x\u00e9", "\u00aa", "\u2167", "\u0300", "\uff11", "\U0001d400"]
+    tails = [" b;", "\nclass C;\n", "", "#\u00e9 b", " : B;\nclass C;\n", "\n#endif\nclass C;\n", "#b c"]
+    heads = ["", "def a", "#ifdef X\nfoo", "class A;\n"]
+    streams["letterlike"] = [h + a + w + t for h in heads for a in ahead for w in words for t in tails]
     streams["nesting"] = gen.deep_nests(rng, quick)
     files = gen.corpus_files()
     streams["corpus"] = [t for _, t in files]
